@@ -480,7 +480,8 @@ theorem advance_or_wait (hr : ReachC cfg s) (hne : s.rt ≠ .exited) :
 theorem stepC_eq_step {l : Label} (hnd : ∀ n, l ≠ .delay n) : stepC cfg s l = step cfg s l := by
   cases l <;> first | rfl | exact absurd rfl (hnd _)
 
-/-- every label but the three at which a run of a historical variant leaves the model (`Label.leaves`) leaves the flag
+/-- every label but the four at which a run leaves the model (`Label.leaves`: three of the historical variants, `orchCrash` of the
+    current tree) leaves the flag
     `abandoned` as it is -/
 theorem abandoned_step {l : Label} {s' : State} (h : step cfg s l = some s') (hl : l.leaves = false) :
     s'.abandoned = s.abandoned := by
@@ -525,6 +526,7 @@ theorem returns_aux : ∀ (n : Nat) (s : State), mu cfg s ≤ n → ReachC cfg s
             cases l <;> simp [Label.leaves] at hlv
             · have := orchAbandon_mu hstep
               omega
+            · simp [internal] at hint
             · simp [internal] at hint
             · simp [internal] at hint
         have hna1 : s1.abandoned = s.abandoned := abandoned_step hstep hlab
